@@ -227,6 +227,20 @@ def rule_c(prog, rep):
     rep.floor("R-C15-c", 3, n)
 
 
+def _kids(t):
+    out = []
+    for a in t.args:
+        if isinstance(a, tm.T):
+            out.append(a)
+        elif isinstance(a, (tuple, list)):
+            for b in a:
+                if isinstance(b, tm.T):
+                    out.append(b)
+                elif isinstance(b, (tuple, list)):
+                    out.extend(c for c in b if isinstance(c, tm.T))
+    return out
+
+
 def rule_d(prog, rep):
     fi, I, fr = run(prog, "iindex.__eq__")
     self_t, other = tm.param("self"), tm.param("other")
@@ -280,6 +294,27 @@ def rule_d(prog, rep):
                          witness={"inputs": "b = a.copy(); b.update({(1,): [more rows]}): a == b is True, b == a is False"})
     else:
         rep.undecided("R-C15-d", fi.fq, "per entry, the two row-id arrays are compared symmetrically", "comparison not recognised")
+    # a symmetric DIFFERENCE is an array of row ids: its emptiness is its length, never its truth value (row id 0 is falsy)
+    for x in [x for x in sym if tm.callee_name(x) == "numpy.setxor1d"]:
+        users = [u for u in tm.walk(v) if u is not x and any(a is x or a == x for a in _kids(u))]
+        verdict = None
+        for u in users:
+            nm = tm.callee_name(u) if u.op == "call" else None
+            if u.op == "call" and nm == "builtins.len":
+                verdict = "len"
+            elif u.op == "attr" and u.args[1] in ("size",):
+                verdict = "len"
+            elif (u.op == "call" and nm in ("numpy.any", "numpy.all", "numpy.sum", "numpy.count_nonzero", "builtins.bool", "builtins.any", "builtins.all", "builtins.sum")) or \
+                    (u.op == "attr" and u.args[1] in ("any", "all", "sum")) or u.op == "not" or (u.op == "bool" and x in u.args[1:]):
+                verdict = verdict or ("truth", tm.show(u)[:60])
+        if verdict == "len":
+            rep.proved("R-C15-d", fi.fq, "the symmetric difference is tested for emptiness by its length", "len / size")
+        elif verdict:
+            rep.violated("R-C15-d", fi.fq, "the symmetric difference is tested for emptiness by its length",
+                         "the difference (an array of ROW IDS) is reduced by truth value (%s): row id 0 is falsy, so two indexes that differ only in row 0 compare equal" % verdict[1],
+                         witness={"inputs": "iindex.from_array([1, 2, 0]) == iindex.from_array([0, 2, 0]) -> True"})
+        else:
+            rep.undecided("R-C15-d", fi.fq, "the symmetric difference is tested for emptiness by its length", "use of the difference not recognised")
     rep.check(len_both, "R-C15-d", fi.fq, "__eq__ compares the number of entries (so keys only in other are noticed)", "",
               "an entry present only in the right operand goes unnoticed", witness={"inputs": "b has one more entry than a"})
     conj = v.op == "bool" and v.args[0] == "and"
